@@ -1438,7 +1438,8 @@ def pure_stub(em, fn):
     if isinstance(f.ret, FpT):
         # second clause of the contract (proved on the real body by a companion obligation): a NaN argument gives a NaN result
         nanarg = ' || '.join('(%s != %s)' % (e, e) for t, e in keys if isinstance(t, FpT)) or '0'
-        L.append('  __CPROVER_assume(!(%s) || (nd_ != nd_));   /* callee contract: NaN in ==> NaN out */' % nanarg)
+        if sum(1 for t, e in keys if isinstance(t, FpT)) == 1:
+            L.append('  __CPROVER_assume(!(%s) || (nd_ != nd_));   /* callee contract: NaN in ==> NaN out */' % nanarg)
     L.append('  int slot = %s_set[0] ? 1 : 0;' % nm)
     L.append('  %s_set[slot] = 1; for (int i = 0; i < %d; i++) %s_key[slot][i] = k[i]; %s_val[slot] = nd_;' % (nm, max(nk, 1), nm, nm))
     L.append('  return nd_;')
